@@ -1,10 +1,14 @@
 #!/bin/bash
-# usage: tools/run_seeded.sh [tier]   -- runs every seeded change under seeded/<ID>-<mK>/ against ./check <ID> <tier>
+# usage: tools/run_seeded.sh [tier] [parallel]   -- runs every seeded change under seeded/<ID>-<mK>/ against ./check <ID> <tier>
 # (scratch copies of /repo; /repo itself is never touched). Prints DETECTED / MISSED per seeded change.
-here="$(cd "$(dirname "$0")/.." && pwd)"; tier="${1:-quick}"
+# Evidence files are written by these runs: re-run the checks on the clean tree afterwards.
+here="$(cd "$(dirname "$0")/.." && pwd)"; tier="${1:-quick}"; par="${2:-1}"
 cd "$here"
-for d in seeded/*/; do
+one() {
+  d="$1"; tier="$2"
   name="$(basename "$d")"; id="${name%%-*}"
-  out="$(tools/with_mutant.sh "$here/$d/patch.diff" -- ./check "$id" "$tier" 2>&1)"; rc=$?
+  out="$(tools/with_mutant.sh "$d/patch.diff" -- ./check "$id" "$tier" 2>&1)"; rc=$?
   if [ $rc -eq 1 ]; then echo "DETECTED $name: $(echo "$out" | grep -m1 '^  key=' | cut -c1-160)"; else echo "MISSED   $name (rc=$rc)"; fi
-done
+}
+export -f one
+ls -d seeded/*/ | sed 's#/$##' | xargs -P "$par" -I{} bash -c 'one "$0" "$1"' {} "$tier"
